@@ -100,3 +100,32 @@ func VH_C20_Attr() {
 	symAssert(out == o.want[vhC20Attrs[a]], "attribute-value")
 	_ = hist
 }
+
+// vhC20WideNames: field names of the 300-field struct that are looked up (around every power-of-two
+// boundary an index encoding could have)
+var vhC20WideNames = []string{"F000", "F001", "F007", "F008", "F015", "F016", "F031", "F032", "F063", "F064", "F127", "F128", "F255", "F256", "F257", "F299"}
+
+// VH_C20_Wide: a struct with 300 fields, by value and by pointer, after a history of H other lookups on
+// it: x.Fnnn is field nnn.
+func VH_C20_Wide() {
+	h := symParam("H", 1)
+	w := vhNewWide()
+	var obj interface{} = w
+	if symBool() {
+		obj = &w
+	}
+	e := New()
+	for i := 0; i < h; i++ {
+		hn := vhC20WideNames[symChoice(len(vhC20WideNames))]
+		e.RegisterString("h"+strconv.Itoa(i), "{{ o."+hn+" }}")
+		out, err := e.Render("h"+strconv.Itoa(i), map[string]interface{}{"o": obj})
+		symAssert(err == nil && out == "v"+hn[1:], "history-lookup-right")
+	}
+	n := vhC20WideNames[symChoice(len(vhC20WideNames))]
+	symTag("lookup:wide." + n)
+	e.RegisterString("t", "{{ o."+n+" }}|{{ o.F300 }}")
+	out, err := e.Render("t", map[string]interface{}{"o": obj})
+	symCover("rendered")
+	symAssert(err == nil, "no-error")
+	symAssert(out == "v"+n[1:]+"|", "attribute-value")
+}
